@@ -117,6 +117,10 @@ func (x *Explorer) Lt(a, b *Term) *Term {
 	if a == b {
 		return x.T.Bool(false)
 	}
+	// canonical form for integer comparisons with a constant: (c < x) == !(x < c+1)
+	if cv, ok := a.Int64(); ok && !b.IsConst() && cv < (1<<62) && cv > -(1<<62) && isIntegerTerm(b) {
+		return x.Not(x.Lt(b, x.T.Const(constant.MakeInt64(cv+1), b.Type)))
+	}
 	if a.IsConst() && b.IsConst() && a.Val.Kind() == b.Val.Kind() {
 		return x.T.Bool(constant.Compare(a.Val, token.LSS, b.Val))
 	}
@@ -426,4 +430,12 @@ func (x *Explorer) nonNilGlobalLoad(t *Term) bool {
 		return false
 	}
 	return x.P.NonNilGlobal(t.Args[0].Ref.(*ssa.Global))
+}
+
+func isIntegerTerm(t *Term) bool {
+	if t.Type == nil {
+		return t.Kind == KLen || t.Kind == KCap
+	}
+	b, ok := t.Type.Underlying().(*types.Basic)
+	return ok && b.Info()&types.IsInteger != 0
 }
